@@ -5,7 +5,8 @@ From BV Require Import Base.Prelude Model.Block Model.ForkDB Model.Forkable Spec
   Spec.C01_Spec Spec.C01_Moving_Spec Spec.C01_Roots_Spec Spec.C04_Spec Spec.C04_Moving_Spec Spec.C04_Disc_Spec
   Proofs.Fk.LoopFacts Proofs.Fk.MovingLibLoops Proofs.Fk.MovingLibInv Proofs.Fk.FixedLibEvents Proofs.Fk.MovingLibEvents
   Proofs.Fk.MovingLibFin Proofs.Fk.MovingLibDisc Proofs.Fk.DiscEvents Proofs.Fk.FailPrefix Proofs.Fk.FailRun
-  Proofs.C04_Proofs Proofs.C04_MovingProofs Proofs.C02_Proofs Proofs.C01_Roots_Proofs.
+  Proofs.C04_Proofs Proofs.C04_MovingProofs Proofs.C02_Proofs Proofs.C01_Roots_Proofs
+  Check.Fk_Check Check.Fk_Props_Check Proofs.PreludeFacts Proofs.Fk.MovingLibFollow.
 Local Open Scope N_scope.
 
 (* ---------------------------------------------------------------- the monitor on a discovery-mode shape *)
@@ -84,3 +85,42 @@ Proof.
   - pose proof (c04_disc_nofail cfg h Hf Hhold Hincl Hnew Hundo Hscope) as HN.
     split; [exact (c04d_run_accept _ h _ HN) | intros _; exact HN].
 Qed.
+
+(* ---------------------------------------------------------------- the observations of the check *)
+
+(* an observation that corresponds to the model carries the model's trace *)
+Lemma matches_trace cfg qh qi : forall h s os, model_matches cfg s h os qh qi = true ->
+  map (fun o => (o_events o, o_result o)) os = fk_run cfg s h.
+Proof.
+  induction h as [|b h IH]; intros s os H; destruct os as [|o os]; cbn [model_matches] in H; try discriminate; [reflexivity|].
+  cbn [fk_run map]. destruct (fk_step cfg s b) as [[s' evs] r].
+  apply andb_true_iff in H as [H H6]. apply andb_true_iff in H as [H _].
+  apply andb_true_iff in H as [H _]. apply andb_true_iff in H as [H _].
+  apply andb_true_iff in H as [H1 H2].
+  apply (list_eqb_eq _ event_eqb_iff) in H1. apply result_eqb_iff in H2. subst evs r. f_equal.
+  destruct (o_result o); try (destruct os; [reflexivity | discriminate]).
+  apply IH. exact H6.
+Qed.
+
+Lemma c04_discovery_observed_proved : c04_discovery_observed.
+Proof.
+  intros k Hsc Hcor. unfold c04_prop. apply orb_true_iff. right.
+  unfold c04_disc_thm_scope in Hsc. destruct (k_mode k) eqn:Em; [discriminate | discriminate |].
+  apply andb_true_iff in Hsc as [H Hscope]. apply andb_true_iff in H as [H Hnu].
+  apply andb_true_iff in H as [Hhold Hincl]. apply negb_true_iff in Hincl.
+  unfold filt_nu in Hnu. apply andb_true_iff in Hnu as [Hnew Hundo].
+  unfold fk_corresponds in Hcor. rewrite Em in Hcor.
+  unfold obs_trace. rewrite (matches_trace _ _ _ _ _ _ Hcor). unfold filt_irr.
+  exact (proj1 (c04_discovery_proved (k_cfg k) (k_hist k) Hhold Hincl Hnew Hundo Hscope)).
+Qed.
+
+(* the filter written with the names visible from the check's imports (the "thm_scope" text) *)
+Definition c04_disc_thm_scope_inline : fk_case -> bool :=
+  (fun k => match k_mode k with
+            | LNone => c_hold (k_cfg k) && negb (c_incl (k_cfg k)) && filt_nu k &&
+                       (BV.Spec.Universe.wf_b (k_hist k) && BV.Spec.Universe.lib_ok_b LNone (k_hist k))
+            | _ => false
+            end).
+
+Lemma c04_disc_thm_scope_inline_eq k : c04_disc_thm_scope_inline k = c04_disc_thm_scope k.
+Proof. reflexivity. Qed.
